@@ -64,7 +64,7 @@ Print Assumptions C06_marks_outside_kept.
    C06_refines_spec: for EVERY script (the pending input of ANY model state: command lines, `|`-joined lists, text
    blocks), every fuel, and arbitrary regex / filter / file parameters: whenever the reference editor runs the script
    to its end (ref_main = Some r'), the model's run ends in a state whose texts, current line, printed output,
-   registers, mark rows, remembered pattern and remaining input are exactly r'.  ref_main is None exactly when
+   registers, mark rows, remembered pattern and remaining input are exactly r'.  ref_main is None when
    (a) the script uses a command outside C06's list: global/vglobal (C15), substitute, undo (C04), write (C02),
    anything ExDefs.v does not model (is_other), or a construct ExDefs.v flags as outside its fragment (registers ; # ^,
    `r !cmd`, % # \ in an argument, an address-less `!`), or the filter command without writeany (its first step is the
